@@ -1,16 +1,20 @@
 #!/usr/bin/env python3
 """Regenerates checks/c09/regress.json and findings.d/C09.jsonl skeleton from the replay files of a COMPLETE
 quick run on the tree whose findings are to be listed:  bin/check C09 ; checks/c09/gen_regress.py
-(only signatures that are not yet listed show up as replay files, so run it with an empty findings.d/C09.jsonl
-to regenerate everything). Prints the signatures; the 'what' texts of findings.d are maintained by hand in
+(only signatures that are not yet listed show up as replay files: run it with an empty findings.d/C09.jsonl
+to regenerate everything, or with --append after a run that printed VIOLATION lines for further symptoms of the
+listed defects). Prints the signatures; the 'what' texts of findings.d are maintained by hand in
 FINDING_TEXT below."""
 import json, glob, sys, os
 root = "/verif"
 cases = []
+if "--append" in sys.argv:
+    cases = json.load(open(root + "/checks/c09/regress.json"))
+have = {c["signature"] for c in cases}
 for f in sorted(glob.glob(root + "/replays/C09/*.json")):
     v = json.load(open(f))
     c = v["case"]
-    if c is None:
+    if c is None or v["signature"] in have:
         continue
     hist = [{"op": s["op"], "k": s.get("k", 0), "v": s["v"], "ctx": s.get("ctx", 0)} for s in c["history"]]
     cases.append({"signature": v["signature"], "part": c["part"], "name": c["name"], "prog": c["prog"], "history": hist,
